@@ -4,8 +4,8 @@ EXTENDS TraceBase, Subchroma
 VARIABLES l, bad, drift, nchk
 vars == <<l, bad, drift, nchk>>
 \* the planes as painted by the driver
-Ypl(w, h) == [y \in 1..h |-> [x \in 1..w |-> 1 + (x - 1) + 10 * (y - 1)]]
-Cpl(base, d) == [y \in 1..d[2] |-> [x \in 1..d[1] |-> base + (x - 1) + 10 * (y - 1)]]
+Ypl(w, h) == [y \in 1..h |-> [x \in 1..w |-> (1 + (x - 1) + 10 * (y - 1)) % 256]]        \* (8-bit planes: the driver's values wrap)
+Cpl(base, d) == [y \in 1..d[2] |-> [x \in 1..d[1] |-> (base + (x - 1) + 10 * (y - 1)) % 256]]
 SubVerdict(ev) ==
     LET d == P_PlaneDims(ev.w, ev.h, ev.a, ev.b)
         key == "4:" \o ToString(ev.a) \o ":" \o ToString(ev.b)
